@@ -8,7 +8,7 @@ import json, os, shutil, subprocess, sys, tempfile
 VERIF = os.path.dirname(os.path.dirname(os.path.abspath(__file__)))
 src, prop, n = sys.argv[1], sys.argv[2], sys.argv[3]
 rnd = sys.argv[4] if len(sys.argv) > 4 else "6"
-letter = {"6": "v", "7": "w", "8": "x", "9": "y"}[rnd]
+letter = {"6": "v", "7": "w", "8": "x", "9": "y", "10": "z"}[rnd]
 sid, bid = f"{prop}-{letter}{n}", f"twin{rnd}-{prop}-{n}"
 for f in ("patch.diff", "twin.diff", "demo.py"):
     if not os.path.exists(os.path.join(src, f)):
